@@ -29,7 +29,7 @@ def ok_prefix_program(lines, results):
 
 def run(res, tier, rng, table_diffs=()):
     sessions = []
-    small = ALPHABET[:14]
+    small = ALPHABET[:14] + ["stel e = a / 0", "e"]
     for n in (1, 2, 3):
         for t in itertools.product(small, repeat=n):
             if n == 3 and tier == "quick" and rng.below(4) != 0:
@@ -59,6 +59,12 @@ def run(res, tier, rng, table_diffs=()):
                 s.append("functie g%d(n) { als n < 1 { antwoord 0 }; n + g%d(n - 1) } g%d(%d)" % ((rng.below(3),) * 3 + (rng.below(6),)))
             else:
                 s.append("stel d = 0; zolang d < %d { d += 1; }; d" % rng.below(6))
+        if rng.chance(1, 3):
+            # declarations whose initialiser fails (the slot is never written), fresh declarations after them, reads of both
+            for _ in range(rng.range(2, 6)):
+                v = rng.pick(["m1", "m2", "m3"])
+                s.insert(rng.below(len(s) + 1), rng.pick(["stel %s = a / 0" % v, "stel %s = %d" % (v, rng.below(90)), v, "stel n%d = a + %d" % (rng.below(4), rng.below(90)),
+                                                          "%s" % v, "stel %s = zz" % v]))
         sessions.append(["stel a = 0"] + s)
     reqs = ["session 100000 " + " ".join(hx(l) for l in s) for s in sessions]
     # a line that failed deep inside calls (or at the frame limit) leaves nothing behind that a later line could notice:
@@ -70,6 +76,10 @@ def run(res, tier, rng, table_diffs=()):
     deep = [[runaway, small_call], [runaway, runaway, small_call, ok_deep], [fail_deep] * 4 + [ok_deep, small_call],
             [ok_deep, fail_deep, ok_deep], ["stel a = 1", fail_deep, "a", runaway, "a + 1", small_call],
             [fail_deep, "functie g() { [1.5, \"s\"] } g()", runaway, "functie g() { [2.5] } g()[0]"]]
+    never_written = [["stel x = 1 / 0", "stel y = 5", "x", "y"], ["stel a = 2", "stel q = a / 0", "stel r = a / 0", "stel z = a + 40", "q", "r", "z"],
+                     ["stel x = 1 / 0", "x", "stel x = 3", "x"], ["stel x = 1 / 0", "stel y = 2 / 0", "stel z = 9", "x", "y", "z", "stel w = 8", "x"]]
+    sessions += never_written
+    reqs += ["session 100000 " + " ".join(hx(l) for l in s) for s in never_written]
     sessions += deep
     reqs += ["session 3000000 " + " ".join(hx(l) for l in s) for s in deep]
     ia = core.impl(reqs)
